@@ -107,6 +107,15 @@ pub fn check(cfg: &Cfg, rep: Option<&mut Report>) -> Result<u64, String> {
                     if (idx == 0) != unchanged && !(frozen && idx != 0) {
                         return Err(format!("draw {d}: index_in_trajectory {idx} but position {} (step size {})", if unchanged { "unchanged" } else { "changed" }, progress.step_size));
                     }
+                    // energy error: relative to the start state of THIS trajectory (zero for a draw that is the start state), and one of the
+                    // energy errors the integrator saw in this trajectory (the step-size collector registers every visited state)
+                    let eerr = row.f("energy_error").ok_or("no energy_error stat")?;
+                    if idx == 0 && eerr != 0.0 { return Err(format!("draw {d}: the draw is the start state of its trajectory (index 0) but energy_error = {eerr}")); }
+                    if let Some(mx) = row.f("max_energy_error") {
+                        if idx != 0 && !div && eerr.is_finite() && mx.is_finite() && eerr.abs() > mx.abs() {
+                            return Err(format!("draw {d}: |energy_error| {} of the returned state exceeds the largest energy error seen in its trajectory ({})", eerr.abs(), mx.abs()));
+                        }
+                    }
                     if progress.num_steps != n_steps { return Err(format!("draw {d}: Progress.num_steps {} != n_steps stat {n_steps}", progress.num_steps)); }
                     if depth >= 2 && idx != 0 { nontrivial += 1; }
                 } else {
